@@ -9,6 +9,9 @@ R20.5  the names handed to the header and implementation writers are functions o
        wasmCWriteModule's string manipulation is partially evaluated (strcpy/strrchr/basename/memmove/strlen modelled on
        character arrays) for a family of paths with dotted directories, missing extensions and several dots; the
        implementation name must be the last component and the header name that component with its extension replaced by .h
+R20.6  the directory change really happens: changeToOutputDirectory is partially evaluated on a family of output paths (relative,
+       dot-prefixed, parent-relative, absolute, bare names); it must succeed only after chdir(d) with d = dirname(path), or without
+       any chdir only when dirname(path) is the current directory itself
 R20.2  all those names are separator-free and chdir(dirname(output)) dominates the writer and the cleaner
 R20.3  who may delete: remove() is called only by the cleaner, which runs only under the clean flag
 R20.4  the delete filter equals the naming scheme: the set of names reaching remove() (computed by partial
@@ -589,6 +592,72 @@ def check_writer_names(chk, c_tu):
                    'anything else names a file that is not one of the translator\'s outputs' % (path, got['header'], got['include'], want_header), site)
 
 
+# ---- R20.6 ----------------------------------------------------------------------------------------
+
+DIR_FAMILY = PATH_FAMILY + ['./m.c', './gen/m.c', '../gen/m.c', '.gen/m.c', '..hidden/x.c', './.x/y.c', 'a/./b.c', '/m.c', 'gen//m.c']
+
+
+def posix_dirname(path):
+    if path == '':
+        return '.'
+    t = path.rstrip('/')
+    if t == '':
+        return '/'
+    i = t.rfind('/')
+    if i < 0:
+        return '.'
+    d = t[:i].rstrip('/')
+    return d if d else '/'
+
+
+def check_directory_change(chk, main_tu):
+    from ..emit import _cstr
+    fn = 'changeToOutputDirectory'
+    chk.require(fn in main_tu.functions, 'anchor %s not found in main.c' % fn)
+    chk.fn(fn)
+    site = fn + ':chdir'
+    for path in DIR_FAMILY:
+        calls = []
+        leafs = string_leafs()
+
+        def dirname(interp, args, node):
+            p = args[0]
+            s_ = _cstr(interp, p)
+            d = posix_dirname(s_)
+            if isinstance(p, Ptr) and s_.startswith(d) and d not in ('.',) and '/' in s_:
+                interp.store(p.c, p.k + len(d), 0)          # dirname may cut its argument in place
+                return Ptr(p.c, p.k)
+            return d
+
+        def chdir(interp, args, node, calls=calls):
+            calls.append(_cstr(interp, args[0]))
+            return 0
+
+        def scmp(n_):
+            def f(interp, args, node):
+                a, b = _cstr(interp, args[0]), _cstr(interp, args[1])
+                if n_:
+                    k = args[2]
+                    a, b = a[:k], b[:k]
+                return (a > b) - (a < b)
+            return f
+        leafs.update({'dirname': dirname, '__xpg_dirname': dirname, 'chdir': chdir, 'strcmp': scmp(False), 'strncmp': scmp(True),
+                      'fprintf': lambda i, a, n: 0})
+        it = pe.Interp([main_tu], leafs)
+        paths = [p for p in it.explore(lambda path=path: (fn, [path], {})) if not p.aborted]
+        if not chk.expect(len(paths) == 1, 'R20.6', 'evaluated[%s]' % path, '%s(%r): %d paths' % (fn, path, len(paths)), site):
+            continue
+        ret = paths[0].ret
+        want = posix_dirname(path)
+        if calls:
+            ok = ret == 1 and len(calls) == 1 and calls[0] == want
+        else:
+            ok = ret == 1 and want == '.'
+        chk.expect(ok, 'R20.6', 'chdir[%s]' % path,
+                   'for output path %r the function returns %r after chdir calls %r; the files must be written in %r - otherwise the outputs, the '
+                   'datasegments file and the -c cleaner act on another directory' % (path, ret, calls, want), site)
+
+
 def run(chk):
     chk.explanation = (
         'Who-may-create / who-may-delete rules over all fourteen translator units with interprocedural string provenance for every '
@@ -608,9 +677,11 @@ def run(chk):
     check_main_order(chk, main_tu, prov)
     check_filter(chk, main_tu, c_tu, filename_length_macro(c_tu))
     check_writer_names(chk, c_tu)
+    check_directory_change(chk, main_tu)
     chk.floor('R20.1', 5)
     chk.floor('R20.2', 6)
     chk.floor('R20.3', 4)
     chk.floor('R20.4', 24)
     chk.floor('R20.5', 30)
+    chk.floor('R20.6', 30)
     chk.exhaustive = True
